@@ -4,10 +4,15 @@ LEVEL = 'proof'
 PROP = 'C02'
 MODULES = ['Netpoll.Props.C02']
 MANIFEST = dict(
-    text='Lean 4 theorems over an ownership ledger model of LinkBuffer (blocks, nodes, reference counts, live views): no pool block is freed and no memory under a live view is written while the view\'s reader is unreleased, for all operation sequences; '
-         'one genuine exception (WriteDirect split, known finding D4) is excluded by an explicit hypothesis and proved as a witness. Tied to the code by a run with an allocator that never reuses and poisons freed blocks: '
-         'every live result is re-compared with its snapshot after every later operation and allocator events are compared with the ledger model.',
-    note='partial: the cross-goroutine release of Slice readers is reduced to interleavings of whole operations (A-atomic-refer). Known finding D4 listed in known_findings.jsonl. Correspondence is sampling.',
-    technique='Lean 4 invariant proof over an ownership ledger model + poisoning-allocator differential run', design='§6 C02')
+    text='Lean 4 theorems over an ownership ledger model of LinkBuffer (Netpoll.Buf.Owner: pool / GC / caller blocks, node structs with reference counts and origins, caches, live views; every LinkBuffer method mirrored): '
+         'for all operation sequences over any number of buffers, Slice readers and appended buffers, the block under a live zero-copy result (Next/Peek/Until/GetBytes view) or under a node held by an open reader (Slice children) is never handed back to the pool '
+         '(C02_no_free_while_live_partial, C02_no_free_while_reader_holds_partial, C02_oracle_accepts_partial; invariants: typing, ownership tokens, reference counts, held views). '
+         'The WriteDirect split (known finding D4) is excluded by an explicit per-call hypothesis (CovV) and proved as witnesses on two concrete histories (C02_D4_witness, C02_D4_witness_view). '
+         'Tied to the code by a run with an allocator that never reuses and poisons freed blocks: every live result is re-compared with its snapshot after every later operation, and the ledger model is compared op by op with the implementation '
+         '(allocator events, per-node reference count / block / origin, and the problems reported at the known finding).',
+    note='partial: CovV excludes WriteDirect(remain>0) (D4), a MallocAck that would reset a reference count != 1, chain cuts behind the write node over exposed structs, id reuse (none of these occurs inside the documented contract except D4; the check measures how many sampled calls are inside CovV). '
+         'NOT proved: "no netpoll write overlaps a live view" (C02_no_overwrite_while_live) - covered only by sampling: the implementation-side snapshot oracle and the model-side write-under-live-view check of npdriver own. '
+         'Cross-goroutine release of Slice readers is reduced to interleavings of whole operations (A-atomic-refer). Correspondence is sampling.',
+    technique='Lean 4 invariant proofs over an ownership ledger model + poisoning-allocator differential run with op-by-op ledger correspondence', design='§6 C02')
 def run(rep): ownrun.check(rep, PROP, ownrun.C02_KINDS, MODULES)
 def replay(rep, path): return ownrun.replay(rep, PROP, ownrun.C02_KINDS, path)
